@@ -2,7 +2,7 @@
 import p_seqprops
 
 PROPS = ["C13"]
-PROFILES = [(3, {"idle_prob": 0.4, "err_ret_prob": 0.15, "script_prob": 0.9}), (1, {})]
+PROFILES = [(3, {"idle_prob": 0.4, "err_ret_prob": 0.15, "script_prob": 0.9, "idle_burst_prob": 0.12}), (1, {})]
 
 
 def main(tier, seed):
